@@ -219,6 +219,53 @@ theorem createBlock_dup_iff (s : Store.Store) (n : Store.Name) (hac : s.autocomm
       simp [hpk, hdup, Db.hasContainer]
     simp [hins]
 
+
+/-- cif_container_create_frame on a store outside any transaction, with a fresh next id and an existing parent container: refused as a
+    duplicate exactly when the parent already has a frame row with that key -/
+theorem createFrame_dup_iff (s : Store.Store) (p : CH) (n : Store.Name) (hac : s.autocommit = true) (hv : n.valid = true)
+    (hcid : ∀ f ∈ s.db.frames, f.cid ≠ s.db.nextId) (hp : s.db.hasContainer p.id = true) (hpn : p.id ≠ s.db.nextId) :
+    (createFrame s p (some n)).2 = .error CIF_DUP_FRAMECODE ↔
+      s.db.frames.any (fun f => f.parent == p.id && f.name == n.key) = true := by
+  have hb : s.begin = some { s with txn := some s.db } := by simp [Store.begin, hac]
+  unfold createFrame
+  simp only [Bool.not_false, Bool.true_and, hv, Bool.not_true, Bool.false_eq_true, if_false, hb]
+  have hpk : s.db.frames.any (fun f => f.cid == s.db.nextId) = false := by
+    rw [Bool.eq_false_iff]
+    intro h
+    obtain ⟨f, hfm, hfe⟩ := List.any_eq_true.mp h
+    exact hcid f hfm (by simpa using hfe)
+  have hne : (s.db.nextId == p.id) = false := by
+    rw [Bool.eq_false_iff]; intro h; have e : s.db.nextId = p.id := by simpa using h
+    exact hpn e.symm
+  have hp' : (s.db.containers ++ [({ id := s.db.nextId, nextLoopNum := 0 } : ContainerRow)]).any (fun c => c.id == p.id) = true := by
+    rw [List.any_append]; simp only [Db.hasContainer] at hp; simp [hp]
+  cases hdup : s.db.frames.any (fun f => f.parent == p.id && f.name == n.key) with
+  | true =>
+    have : s.db.insertContainer.1.insertFrame s.db.insertContainer.2 p.id n.key n.orig = none := by
+      unfold Db.insertFrame Db.insertContainer
+      simp [hpk, hdup]
+    simp [this]
+  | false =>
+    have hins : ∃ d2, s.db.insertContainer.1.insertFrame s.db.insertContainer.2 p.id n.key n.orig = some d2 := by
+      unfold Db.insertFrame Db.insertContainer
+      simp [hpk, hdup, hne, Db.hasContainer, hp']
+    obtain ⟨d2, h2⟩ := hins
+    simp [h2]
+
+/-- items present under a key after a successful cif_container_create_loop: the new names' keys, and what was there before -/
+theorem createLoop_hasItem (s s' : Store.Store) (p : CH) (cat : Option Str) (names : List Store.Name) (l : LH)
+    (he : createLoop s p cat names = (s', .ok l)) (cid : Nat) (k : Str) :
+    s'.db.hasItem cid k = true ↔ ((cid = p.id ∧ ∃ n ∈ names, n.key = k) ∨ s.db.hasItem cid k = true) := by
+  obtain ⟨hrows, _, _, _⟩ := createLoop_rows s s' p cat names l he
+  simp only [hasItem_iff, hrows, List.mem_append, List.mem_map]
+  constructor
+  · rintro ⟨i, hi | ⟨n, hn, rfl⟩, h1, h2⟩
+    · exact Or.inr ⟨i, hi, h1, h2⟩
+    · exact Or.inl ⟨h1.symm, n, hn, h2⟩
+  · rintro (⟨h1, n, hn, h2⟩ | ⟨i, hi, h1, h2⟩)
+    · exact ⟨_, Or.inr ⟨n, hn, rfl⟩, h1.symm, h2⟩
+    · exact ⟨i, Or.inl hi, h1, h2⟩
+
 /-! ### tables and packets -/
 open CifModel.Model.Value in
 theorem tableSet_stored (U : UnicodeOps) (es : List Value.Entry) (key : Str) (x : Option V) :
